@@ -143,32 +143,53 @@ func DistMatrix(al align.Alignment, weights []float64, model DistModel, range1Mi
 		outmatrix[i] = make([]float64, al.NbSequences())
 	}
 
+	useRanges := range1Min >= 0 && range1Max >= 0 && range2Min >= 0 && range2Max >= 0
+	if useRanges {
+		if range1Max >= al.NbSequences() {
+			range1Max = al.NbSequences() - 1
+		}
+		if range1Min > range1Max {
+			err = fmt.Errorf("range 1 min is greater than range 1 max")
+			return
+		}
+		if range2Max >= al.NbSequences() {
+			range2Max = al.NbSequences() - 1
+		}
+		if range2Min > range2Max {
+			err = fmt.Errorf("range 2 min is greater than range 2 max")
+			return
+		}
+	}
+
+	// First error encountered by the producer or by one of the workers (protected by mux)
+	var firsterr error
+	seterr := func(e error) {
+		mux.Lock()
+		if firsterr == nil {
+			firsterr = e
+		}
+		mux.Unlock()
+	}
+	failed := func() bool {
+		mux.Lock()
+		defer mux.Unlock()
+		return firsterr != nil
+	}
+
 	go func() {
 		defer close(distchan)
 		var seq1, seq2 []uint8
-		if range1Min >= 0 && range1Max >= 0 && range2Min >= 0 && range2Max >= 0 {
-			if range1Max >= al.NbSequences() {
-				range1Max = al.NbSequences() - 1
-			}
-			if range1Min > range1Max {
-				err = fmt.Errorf("range 1 min is greater than range 1 max")
-				return
-			}
-			if range2Max >= al.NbSequences() {
-				range2Max = al.NbSequences() - 1
-			}
-			if range2Min > range2Max {
-				err = fmt.Errorf("range 2 min is greater than range 2 max")
-				return
-			}
-
+		var perr error
+		if useRanges {
 			for i := range1Min; i <= range1Max; i++ {
-				if seq1, err = model.Sequence(i); err != nil {
+				if seq1, perr = model.Sequence(i); perr != nil {
+					seterr(perr)
 					return
 				}
 				for j := range2Min; j <= range2Max; j++ {
 					if j != i {
-						if seq2, err = model.Sequence(j); err != nil {
+						if seq2, perr = model.Sequence(j); perr != nil {
+							seterr(perr)
 							return
 						}
 						distchan <- seqpairdist{i, j, seq1, seq2, model, weights}
@@ -177,11 +198,13 @@ func DistMatrix(al align.Alignment, weights []float64, model DistModel, range1Mi
 			}
 		} else {
 			for i := 0; i < al.NbSequences(); i++ {
-				if seq1, err = model.Sequence(i); err != nil {
+				if seq1, perr = model.Sequence(i); perr != nil {
+					seterr(perr)
 					return
 				}
 				for j := i + 1; j < al.NbSequences(); j++ {
-					if seq2, err = model.Sequence(j); err != nil {
+					if seq2, perr = model.Sequence(j); perr != nil {
+						seterr(perr)
 						return
 					}
 					distchan <- seqpairdist{i, j, seq1, seq2, model, weights}
@@ -189,36 +212,41 @@ func DistMatrix(al align.Alignment, weights []float64, model DistModel, range1Mi
 			}
 		}
 	}()
-	if err != nil {
-		return
-	}
 
 	var wg sync.WaitGroup
 	max := 0.0
 	for cpu := 0; cpu < cpus; cpu++ {
 		wg.Add(1)
 		go func() {
+			defer wg.Done()
 			for sp := range distchan {
-				if sp.i == sp.j {
-					outmatrix[sp.i][sp.i] = 0
-				} else {
-					if outmatrix[sp.i][sp.j], err = model.Distance(sp.seq1, sp.seq2, sp.weights); err != nil {
-						return
-					}
-					outmatrix[sp.j][sp.i] = outmatrix[sp.i][sp.j]
-					mux.Lock()
-					if outmatrix[sp.i][sp.j] < 0 || outmatrix[sp.i][sp.j] == math.Inf(1) || outmatrix[sp.i][sp.j] > NT_DIST_OVER {
-						uncompute = append(uncompute, seqpairdist{sp.i, sp.j, nil, nil, nil, nil})
-					} else if outmatrix[sp.i][sp.j] > max {
-						max = outmatrix[sp.i][sp.j]
-					}
-					mux.Unlock()
+				// After an error, we just empty the channel
+				if sp.i == sp.j || failed() {
+					continue
 				}
+				d, derr := model.Distance(sp.seq1, sp.seq2, sp.weights)
+				if derr != nil {
+					seterr(derr)
+					continue
+				}
+				mux.Lock()
+				outmatrix[sp.i][sp.j] = d
+				outmatrix[sp.j][sp.i] = d
+				if d < 0 || d == math.Inf(1) || d > NT_DIST_OVER {
+					uncompute = append(uncompute, seqpairdist{sp.i, sp.j, nil, nil, nil, nil})
+				} else if d > max {
+					max = d
+				}
+				mux.Unlock()
 			}
-			wg.Done()
 		}()
 	}
 	wg.Wait()
+
+	if firsterr != nil {
+		err = firsterr
+		return
+	}
 
 	for _, sp := range uncompute {
 		outmatrix[sp.i][sp.j] = 2 * max
